@@ -442,7 +442,7 @@ def worker(ctx):
 
 def run(env):
     quick = env.tier == "quick"
-    params = {"units_per_worker": 400 if quick else 12000}
+    params = {"units_per_worker": 1200 if quick else 12000}
     stats = core.run_workers(__name__, "worker", PROP, env.tier, env.seed, env.driver, env.hooks_on,
                              50 if quick else 700, params)
     return core.finish(PROP, env.tier, env.seed, LEVEL, stats, env.t0, RULE,
